@@ -139,8 +139,10 @@ def run(chk):
         if a.get('TN2', '').strip('0,'):
             chk.dist('temp_counters', 'some module counter restored to non-zero by the scan')
         if 'TAST' in m:
-            chk.dist('theorem_conclusion_on_model', 'scan_ctx (p_ctx ms) = map tnorm_module ms' if m['TAST'] == 'tnorm'
-                     else 'AST differs from tnorm (labels not in first-occurrence order, or outside wf_text)')
+            chk.dist('theorem_conclusion_on_model',
+                     {'tnorm': 'scan_ctx (p_ctx ms) = map tnorm_module ms (labels already in first-occurrence order)',
+                      'relabel': 'scan_ctx (p_ctx ms) = map tnorm_module ms\' with relabel_ctx ms = Some ms\' <> ms',
+                      'norelabel': 'relabel_ctx ms = None'}.get(m['TAST'], 'AST differs from tnorm of the relabelled context'))
         if 'X0' in a:
             chk.dist('exec', 'ok' if not a['X0'].startswith('ERR') else 'link-or-run-error')
         if not bad:
